@@ -15,7 +15,10 @@ pub mod c12;
 pub mod setcommon;
 pub mod c13;
 pub mod c14;
+pub mod c15;
 pub mod c16;
+pub mod c17;
+pub mod c19;
 
 use crate::core::{Ctx, Verdict};
 use serde_json::Value as J;
@@ -36,7 +39,10 @@ pub fn run(ctx: &Ctx) -> bool {
         "C12" => c12::run(ctx),
         "C13" => c13::run(ctx),
         "C14" => c14::run(ctx),
+        "C15" => c15::run(ctx),
         "C16" => c16::run(ctx),
+        "C17" => c17::run(ctx),
+        "C19" => c19::run(ctx),
         _ => return false,
     }
     true
@@ -59,7 +65,10 @@ pub fn replay(prop: &str, _kind: &str, case: &J) -> Option<Verdict> {
         "C12" => c12::replay(case),
         "C13" => c13::replay(case),
         "C14" => c14::replay(case),
+        "C15" => c15::replay(case),
         "C16" => c16::replay(case),
+        "C17" => c17::replay(case),
+        "C19" => c19::replay(case),
         _ => None,
     }
 }
